@@ -356,70 +356,76 @@ func runC02(p *core.Prog, r *core.Report) {
 	r.Guard("C02.R4", "append/order", "concatenation order", func() {
 		// Merge (APPEND branch) and sequential append: existing value at offset 0, new value after it
 		for _, name := range []string{"baseStore.Merge", "baseStore.append"} {
-			fn := p.Func(pkgStore, name)
-			r.Touch(core.FuncName(fn))
+			root := p.Func(pkgStore, name)
+			r.Touch(core.FuncName(root))
 			n := 0
-			core.Instrs(fn, func(in ssa.Instruction) {
-				ms, ok := in.(*ssa.MakeSlice)
-				if !ok {
-					return
-				}
-				var copies []*ssa.CallCommon
-				var cins []ssa.Instruction
-				core.Instrs(fn, func(x ssa.Instruction) {
-					cc, ok := core.IsBuiltinCall(x, "copy")
+			for _, fn := range core.Family(root, 1) {
+				fn := fn
+				core.Instrs(fn, func(in ssa.Instruction) {
+					ms, ok := in.(*ssa.MakeSlice)
 					if !ok {
 						return
 					}
-					if sl, ok := cc.Args[0].(*ssa.Slice); ok && sl.X == ssa.Value(ms) {
-						copies = append(copies, cc)
-						cins = append(cins, x)
+					var copies []*ssa.CallCommon
+					var cins []ssa.Instruction
+					core.Instrs(fn, func(x ssa.Instruction) {
+						cc, ok := core.IsBuiltinCall(x, "copy")
+						if !ok {
+							return
+						}
+						if sl, ok := cc.Args[0].(*ssa.Slice); ok && sl.X == ssa.Value(ms) {
+							copies = append(copies, cc)
+							cins = append(cins, x)
+						}
+					})
+					if len(copies) != 2 {
+						return
 					}
-				})
-				if len(copies) != 2 {
-					return
-				}
-				n++
-				// classify sources: "existing" = derived from a lookup in kv / GetAt result; "incoming" = parameter value / range value of partial
-				isExisting := func(v ssa.Value) bool {
-					s := core.Trace(v, 0)
-					for c := range s.Calls {
-						if c.Name() == "GetAt" || c.Name() == "getAt" || c.Name() == "getLast" {
-							return true
+					n++
+					// classify sources: "existing" = derived from a lookup in kv / GetAt result; "incoming" = parameter value / range value of partial
+					isExisting := func(v ssa.Value) bool {
+						s := core.Trace(v, 0)
+						for c := range s.Calls {
+							if c.Name() == "GetAt" || c.Name() == "getAt" || c.Name() == "getLast" {
+								return true
+							}
+						}
+						if ex, ok := v.(*ssa.Extract); ok {
+							if lk, ok := ex.Tuple.(*ssa.Lookup); ok {
+								f, _ := core.LoadedField(lk.X)
+								return f == p.Field(pkgStore, "baseStore", "kv")
+							}
+						}
+						return false
+					}
+					var first, second *ssa.CallCommon
+					for _, cc := range copies {
+						sl := cc.Args[0].(*ssa.Slice)
+						if sl.Low == nil || isZeroConst(sl.Low) {
+							first = cc
+						} else {
+							second = cc
 						}
 					}
-					if ex, ok := v.(*ssa.Extract); ok {
-						if lk, ok := ex.Tuple.(*ssa.Lookup); ok {
-							f, _ := core.LoadedField(lk.X)
-							return f == p.Field(pkgStore, "baseStore", "kv")
-						}
-					}
-					return false
-				}
-				var first, second *ssa.CallCommon
-				for _, cc := range copies {
-					sl := cc.Args[0].(*ssa.Slice)
-					if sl.Low == nil || isZeroConst(sl.Low) {
-						first = cc
-					} else {
-						second = cc
-					}
-				}
-				ok2 := first != nil && second != nil && isExisting(first.Args[1]) && !isExisting(second.Args[1])
-				if ok2 {
-					// second offset is len(existing)
-					lo := second.Args[0].(*ssa.Slice).Low
-					if c, ok := core.SkipConv(lo).(*ssa.Call); ok {
-						if b, ok := c.Call.Value.(*ssa.Builtin); !ok || b.Name() != "len" || c.Call.Args[0] != first.Args[1] {
+					ok2 := first != nil && second != nil && isExisting(first.Args[1]) && !isExisting(second.Args[1])
+					if ok2 {
+						// second offset is len(existing)
+						lo := second.Args[0].(*ssa.Slice).Low
+						if c, ok := core.SkipConv(lo).(*ssa.Call); ok {
+							if b, ok := c.Call.Value.(*ssa.Builtin); !ok || b.Name() != "len" || c.Call.Args[0] != first.Args[1] {
+								ok2 = false
+							}
+						} else {
 							ok2 = false
 						}
-					} else {
-						ok2 = false
 					}
-				}
-				lbl := strings.Join(p.CaseLabels(cins[0].Pos()), "/")
-				r.Check(ok2, "C02.R4", name+"/concat/"+lbl, "append concatenates the existing value first (offset 0) and the newer value after it (offset len(existing))", "copy order/offsets do not match existing-then-new", p.Pos(cins[0].Pos()))
-			})
+					lbl := strings.Join(p.CaseLabels(cins[0].Pos()), "/")
+					if lbl == "" && fn != root {
+						lbl = fn.Name()
+					}
+					r.Check(ok2, "C02.R4", name+"/concat/"+lbl, "append concatenates the existing value first (offset 0) and the newer value after it (offset len(existing))", "copy order/offsets do not match existing-then-new", p.Pos(cins[0].Pos()))
+				})
+			}
 			if n == 0 {
 				core.Undecide("%s: no two-copy concatenation found", name)
 			}
@@ -719,8 +725,34 @@ func checkSelectors(p *core.Prog, r *core.Report) {
 		})
 		r.Check(used, "C02.R7", "Merge/"+strings.Join(labels, "/")+"/combiner-used", "the combiner is called in its branch", "combiner defined but never called", p.Pos(cl.Pos()))
 	}
+	// a branch may use the builtin of the same name instead of a hand-written closure (int64, where they agree)
+	core.Instrs(merge, func(in ssa.Instruction) {
+		c, ok := in.(*ssa.Call)
+		if !ok {
+			return
+		}
+		bi, ok := c.Call.Value.(*ssa.Builtin)
+		if !ok || (bi.Name() != "min" && bi.Name() != "max") || len(c.Call.Args) != 2 {
+			return
+		}
+		labels := p.CaseLabels(in.Pos())
+		if len(labels) == 0 {
+			return
+		}
+		want := ""
+		switch labels[0] {
+		case "Module_KindStore_UPDATE_POLICY_MAX":
+			want = "max"
+		case "Module_KindStore_UPDATE_POLICY_MIN":
+			want = "min"
+		default:
+			return
+		}
+		n++
+		r.Check(bi.Name() == want, "C02.R7", "Merge/"+strings.Join(labels, "/")+"/combiner", "the merge combiner of this (policy, value type) is a "+want+" of its two operands", "the builtin "+bi.Name()+" is used", p.Pos(in.Pos()))
+	})
 	if n < 16 {
-		core.Undecide("Merge: only %d combiner closures found (expected 16)", n)
+		core.Undecide("Merge: only %d combiners found (expected 16)", n)
 	}
 }
 
@@ -1333,6 +1365,36 @@ func checkMergeKeySet(p *core.Prog, r *core.Report) {
 			}
 			c := core.CalleeOf(x)
 			if c != setKV && c != setNew {
+				// a helper of the package that receives the key and writes it on every path on which it succeeds
+				ci, ok := x.(ssa.CallInstruction)
+				if !ok {
+					return false
+				}
+				h := core.StaticFn(ci.Common())
+				if h == nil || h.Blocks == nil || h.Pkg != fn.Pkg {
+					return false
+				}
+				for i, a := range ci.Common().Args {
+					if core.SkipConv(a) != key || i >= len(h.Params) {
+						continue
+					}
+					hp := h.Params[i]
+					writes := func(y ssa.Instruction) bool {
+						hc := core.CalleeOf(y)
+						if hc != setKV && hc != setNew {
+							return false
+						}
+						ha := y.(ssa.CallInstruction).Common().Args
+						return len(ha) >= 2 && core.SkipConv(ha[1]) == ssa.Value(hp)
+					}
+					var exit func(ssa.Instruction) bool
+					if res := h.Signature.Results(); res.Len() > 0 && isErrorTyped(res.At(res.Len()-1).Type()) {
+						exit = func(y ssa.Instruction) bool { return core.ReturnsNilError(y) }
+					}
+					if _, must := core.MustReachAfter(h, nil, writes, exit); must {
+						return true
+					}
+				}
 				return false
 			}
 			args := x.(ssa.CallInstruction).Common().Args
@@ -1519,6 +1581,9 @@ func checkMinMaxAbsentKey(p *core.Prog, r *core.Report) {
 						combine = append(combine, x)
 					}
 					if fnv, isFn := c.Call.Value.(*ssa.Function); isFn && fnv.Parent() == fn && len(c.Call.Args) == 2 {
+						combine = append(combine, x)
+					}
+					if bi, isB := c.Call.Value.(*ssa.Builtin); isB && (bi.Name() == "min" || bi.Name() == "max") && len(c.Call.Args) == 2 {
 						combine = append(combine, x)
 					}
 				}
